@@ -237,7 +237,8 @@ IniNoComments(d) == [d EXCEPT !.items = SelectSeq(d.items, LAMBDA it : it.t \in 
 A == <<"a">>   Bb == <<"b">>   X == <<"x">>   Y == <<"y">>
 KvKeys   == {A, Bb} \cup (IF Deep THEN {<<"a", " ", "b">>} ELSE {})
 KvVals   == {<<>>, X, <<"x", "=", "y">>} \cup (IF Deep THEN {<<"x", " ", "y">>, <<"=">>} ELSE {})
-KvLines  == {KvLine("pair", key, v, c) : key \in KvKeys, v \in KvVals, c \in BOOLEAN}
+KvLines  == {KvLine("pair", key, v, c) : key \in KvKeys, v \in KvVals, c \in {FALSE}}
+            \cup {KvLine("pair", key, v, TRUE) : key \in KvKeys, v \in (IF Deep THEN KvVals ELSE {X})}
             \cup {KvLine("bare", key, <<>>, c) : key \in KvKeys, c \in {FALSE}}
             \cup {KvLine("comment", <<>>, <<>>, FALSE), KvLine("blank", <<>>, <<>>, FALSE)}
 KvInputs(nb) == [lines : SeqsUpTo(KvLines, nb), sep : {<<"=">>}, cc : {<<"#">>}, part : BOOLEAN]
